@@ -1,6 +1,7 @@
 """check driver:  python -m pyvc.cli check <ID> [--tier quick|thorough] | replay <file> | baseline | list | lean"""
 import argparse
 import hashlib
+import datetime
 import importlib
 import json
 import multiprocessing as mp
@@ -81,11 +82,35 @@ def _task(args):
             st = run.crosscheck(h, extra['n'], extra['seed'])
             st.update(task='crosscheck', harness=name, seconds=round(time.time() - t0, 2))
             return st
+        if kind == 'bounded' and extra.get('ambient') and not extra.get('_child'):
+            # the ambient conditions are process-wide (TZ, cwd, environment, stdout): a process of its own
+            ctxm = mp.get_context('fork')
+            rx, tx = ctxm.Pipe(duplex=False)
+
+            def runner():
+                tx.send(_task((kind, name, dict(extra, _child=True))))
+                tx.close()
+            pr = ctxm.Process(target=runner)
+            pr.start()
+            tx.close()
+            try:
+                r = rx.recv()
+            except EOFError:
+                r = {'task': kind, 'harness': name, 'module': name, 'crash': 'ambient run of %s died' % name}
+            pr.join()
+            return r
         if kind == 'bounded':
             from pyvc import install
             install.uninstall()              # bounded stand-ins run the pristine library
+            if extra.get('ambient'):
+                _ambient()
             mod = importlib.import_module('bounded.' + name)
             r = mod.run(tier=extra['tier'], seed=extra['seed'], budget_s=extra['budget_s'], jobs=extra.get('jobs', 1))
+            if extra.get('ambient'):
+                r['ambient'] = AMBIENT_TEXT
+                for f in r.get('failures', []):
+                    if isinstance(f.get('case'), dict):
+                        f['case']['ambient'] = True
             r.update(task='bounded', module=name, seconds=round(time.time() - t0, 2), bound=getattr(mod, 'BOUND', ''),
                      clause_properties=getattr(mod, 'CLAUSE_PROPERTIES', None))
             return r
@@ -119,6 +144,37 @@ def finding_matches(entry, prop, oid, meta):
     return True
 
 
+AMBIENT_TEXT = ('ambient re-run: settings.PRINT_EVENTS = True (the library default; output discarded), process time zone '
+                'America/New_York rules (TZ=EST5EDT,M3.2.0,M11.1.0), QSTRADER_CSV_DATA_DIR pointing at a decoy directory with differently '
+                'priced files of the usual symbol names, current directory elsewhere')
+
+
+def _ambient():
+    """the conditions a checker tends to leave at their defaults: none of them is an input of any property, so every bounded
+    module must give the same verdicts under them (this worker process is dedicated to one bounded run)"""
+    import tempfile
+    os.environ['PYVC_AMBIENT'] = '1'
+    import qstrader.settings as _qs
+    _qs.PRINT_EVENTS = True                  # (the bounded modules may have been imported - and have switched it off - before the fork)
+    os.environ['TZ'] = 'EST5EDT,M3.2.0,M11.1.0'
+    time.tzset()
+    d = tempfile.mkdtemp(prefix='pyvc_decoy_')
+    for i, sym in enumerate(['AAA', 'BBB', 'CCC', 'DDD', 'A', 'B', 'ABC', 'DEF', 'SPY', 'AGG', 'GHI']):
+        with open(os.path.join(d, sym + '.csv'), 'w') as fh:
+            fh.write('Date,Open,High,Low,Close,Adj Close,Volume\n')
+            for k in range(2500):
+                day = datetime.date(2015, 1, 1) + datetime.timedelta(days=k)
+                px = 700.0 + 13 * i + (k % 17)
+                fh.write('%s,%.2f,%.2f,%.2f,%.2f,%.2f,%d\n' % (day.isoformat(), px, px + 1, px - 1, px + 0.5, (px + 0.5) / 2, 1000 + k))
+    os.environ['QSTRADER_CSV_DATA_DIR'] = d
+    os.chdir(d)
+    import atexit
+    import shutil
+    atexit.register(shutil.rmtree, d, True)
+    devnull = os.open(os.devnull, os.O_WRONLY)
+    os.dup2(devnull, 1)                      # whatever the library prints (also from child interpreters) is discarded
+
+
 # a bounded module may also serve another property with a SUBSET of its clauses (the mechanism that property rests on)
 EXTRA_BOUNDED = {
     'c06_csv': {'C07': ['future-rows-irrelevant', 'missing-cell-ffill', 'value-at-latest-observation', 'open-close-boundaries',
@@ -129,7 +185,8 @@ EXTRA_BOUNDED = {
                 # signals are fed the handler's (adjusted) close of the source the session was given
                 'C16': ['cache-transparent', 'adjustment']},
     # a clock that can be walked only once meets no schedule and runs no session the second time
-    'c12_calendar': {'C13': ['every-traversal-is-complete'], 'C14': ['every-traversal-is-complete']},
+    'c12_calendar': {'C13': ['every-traversal-is-complete', 'event-times-utc', 'dates-exactly-business-days'],
+                     'C14': ['every-traversal-is-complete', 'event-times-utc', 'dates-exactly-business-days']},
     # the session module also decides the part of C13 that only a session can show: every scheduled instant is acted upon
     'c14_session': {'C13': ['rebalances-exactly-scheduled-after-burn-in', 'later-session-in-the-same-process-unaffected']},
 }
@@ -192,6 +249,8 @@ def check(prop, tier, seed, jobs):
     for b in bmods:
         tasks.append(('bounded', b, {'tier': tier, 'seed': seed, 'budget_s': 25.0 if tier == 'quick' else 600.0,
                                      'jobs': 1 if tier == 'quick' else max(1, jobs // max(1, len(bmods)))}))
+        # ... and once more under non-default ambient conditions (always the quick size; its own worker process)
+        tasks.append(('bounded', b, {'tier': 'quick', 'seed': seed + 1, 'budget_s': 25.0, 'jobs': 1, 'ambient': True}))
     results = []
     # bounded stand-ins may start their own worker processes (thorough tier): they run in non-daemonic executor workers
     btasks = [t for t in tasks if t[0] == 'bounded']
